@@ -9,7 +9,7 @@ LEAN = ["Ymq.Props.C04", "Ymq.Props.C04Relations", "Ymq.Props.C04Shape"]
 AUDIT = "Ymq.Audit.C04"
 THEOREMS = ["Ymq.C04.sched_inv", "Ymq.C04.sched_done_monotone", "Ymq.C04.sched_bounded_work", "Ymq.C04.sched_progress",
             "Ymq.C04.sched_relations_valid", "Ymq.C04.sched_no_panic",
-            "Ymq.C04Shape.sched_inv_shape", "Ymq.C04Shape.shape_adds_exactly", "Ymq.C04Shape.source_shapes_ok"]
+            "Ymq.C04Shape.sched_inv_shape", "Ymq.C04Shape.sched_inv_any_programs", "Ymq.C04Shape.shape_adds_exactly", "Ymq.C04Shape.source_shapes_ok"]
 PROFILES = ["release", "chk"]
 TIMEOUT = 180.0
 RULE = ("real runs of qs/mpqs/siqs/auto/ecm with thread pools of 1,2,3,4,8,16 threads and a seeded yield/sleep before every "
